@@ -389,8 +389,11 @@ VCLAUSE(summary_statistics, 1100, 8000, 160000, "the data are shifted far from t
 			double v = 0, sd = 0;
 			VMUST_RETURN("Variance/Standard_Deviation", v = Variance(g); sd = Standard_Deviation(g));
 			long double var = gss / (N - 1);
-			VCLOSE(c, "general_variance", v, (double) var, (16 + 4 * N) * EPS * ((double) var + gmax * gmax * N * EPS) + 1e-300, "Variance of general data");
-			VCLOSE(c, "general_standard_deviation", sd, std::sqrt((double) var), (16 + 4 * N) * EPS * (std::sqrt((double) var) + gmax * std::sqrt(N * EPS)) + 1e-300, "Standard_Deviation of general data");
+			// the mean carries up to N*eps*|x|max of rounding, which enters every deviation: (delta)^2 and 2*delta*s in the variance, delta in
+			// the standard deviation (three equal values -999.99999999999795 have a mean one ulp off and a standard deviation of 1.4e-13)
+			double dm = 2.0 * N * EPS * gmax, sdr = std::sqrt((double) var);
+			VCLOSE(c, "general_variance", v, (double) var, (16 + 4 * N) * EPS * (double) var + 4 * dm * dm + 4 * dm * sdr + 1e-300, "Variance of general data");
+			VCLOSE(c, "general_standard_deviation", sd, sdr, (16 + 4 * N) * EPS * sdr + 4 * dm + 1e-300, "Standard_Deviation of general data");
 		}
 		return;
 	}
